@@ -458,6 +458,13 @@ func init() {
 					h.Situations["C04"]["real tree "+k] = struct{}{}
 				}
 				h.Evaluations["C04"] += h.Evaluations["C20"]
+				// "the running tasks are told to stop": a command of the canceled job that is still running long after the
+				// kill timeout was not stopped, whatever the job's report says
+				for i := range h.Findings {
+					if h.Findings[i].Sig == "C20:process-survives-kill-timeout" && !h.Findings[i].Has("C04") {
+						h.Findings[i].Props = append(append([]string{}, h.Findings[i].Props...), "C04")
+					}
+				}
 			default:
 				o, _ := cancelCaseParams((c.Idx - nDirected - nReal - nHist - len(drv.ProcShapes())) % nDirected)
 				o.TmpDir = c.TmpDir
